@@ -437,3 +437,30 @@ func runC15Conv(ctx *Ctx) {
 		}
 	}
 }
+
+// c15Floors: minimum shares of the generated inputs that must have reached each predicate (audit
+// C15 item 7, "skips without floor"): a generator change that silently starves a clause of its
+// inputs fails the check instead of passing with fewer cases.
+func c15Floors(ctx *Ctx) {
+	d := ctx.res.Dist
+	docs := d["doc:roundtrip"] + d["doc:conflicting-or-raw"] + d["doc:unlexable"]
+	floors := []struct {
+		name      string
+		got, want int
+	}{
+		{"documents-round-tripped", d["doc:roundtrip"] * 100, docs * 60},
+		{"documents-with-unsorted-distinct-keys", d["doc:docOKU-unsorted-keys"] * 100, docs * 4},
+		{"rejections-infinite", d["reject:infinite"], 100},
+		{"rejections-marked", d["reject:marked"], 20},
+		{"rejections-unknown", d["reject:unknown"], 20},
+		{"mirror-with-wrappers", d["mirrorw:wrappers=1"] + d["mirrorw:wrappers=2"] + d["mirrorw:wrappers>=3"], 300},
+		{"marshal-of-converted", d["conv:converted"], 40},
+		{"round-trips-without-side-condition", d["side:none"], 1000},
+	}
+	for _, f := range floors {
+		if f.got < f.want {
+			ctx.Fail(Failure{Site: "coverage-floor", Sig: f.name, What: "the generators no longer reach this clause often enough (a harness defect, not a defect of go-cty)",
+				Input: f.name, GoLit: "", Outcome: fmt.Sprintf("%d < %d", f.got, f.want)})
+		}
+	}
+}
